@@ -614,7 +614,18 @@ fn cmd_replay(args: &[String]) -> i32 {
             println!("===== {k}\n{}", String::from_utf8_lossy(v));
         }
     }
-    let out = check_case(&prop, &case);
+    let mut out = check_case(&prop, &case);
+    // a difference between two executions of one plan comes from state the simulator does not
+    // control (RandomState inside the code under test): unlike every other replay it recurs
+    // with high probability only, so it gets a few attempts
+    if out.own.is_empty() && case.plan().double_exec {
+        for _ in 0..7 {
+            out = check_case(&prop, &case);
+            if !out.own.is_empty() {
+                break;
+            }
+        }
+    }
     let verbose = args.iter().any(|a| a == "-v");
     if verbose {
         for f in &out.foreign {
